@@ -317,7 +317,7 @@ func repeat(l string, n int) []string {
 const shots = 30
 
 // availability runs: 20 rps for 3 s; instance 1 at once, instance 2 after 300 ms; the target goes away with the first
-// sample and is back 1.8 s after the start (nothing is decided from these times)
+// sample (never before it: the guns' warm-up is over then) and is back 1.8 s after the start (nothing is decided from these times)
 const availShots = 60
 
 func availPoolYAML(id, gunType, ammoType, ammoFile, target, gunExtra string) string {
@@ -761,14 +761,29 @@ func runPlan(idx int, p respPlan, t *respTargets, root string) respRun {
 	conf.Engine.Pools[0].Aggregator = agg
 	eng := engine.New(log, m, conf.Engine)
 	t0 := time.Now()
+	over := make(chan struct{})
 	if gate != nil {
-		// the history: away as soon as the first sample is there (at the latest after 1 s), back 1.8 s after the start
+		// the history: away as soon as the first sample is there - never before: a gun's warm-up (the gRPC guns resolve the
+		// target's services by reflection) is over by then, however long a starved machine takes for it (an earlier version went
+		// away "at the latest after 1 s" and met the warm-up at load average 250: that is a target that is down at start-up,
+		// which may stop a run) -, back 1.8 s after the start and not sooner than 0.6 s after going away
 		go func() {
-			for time.Since(t0) < time.Second && len(agg.Samples()) == 0 {
-				time.Sleep(2 * time.Millisecond)
+			for len(agg.Samples()) == 0 {
+				select {
+				case <-over:
+					return
+				case <-time.After(2 * time.Millisecond):
+				}
 			}
 			gate.SetMode(strings.TrimPrefix(p.avail, "av"))
-			time.Sleep(time.Until(t0.Add(1800 * time.Millisecond)))
+			back := t0.Add(1800 * time.Millisecond)
+			if m := time.Now().Add(600 * time.Millisecond); m.After(back) {
+				back = m
+			}
+			select {
+			case <-over:
+			case <-time.After(time.Until(back)):
+			}
 			gate.SetMode("up")
 		}()
 	}
@@ -777,6 +792,7 @@ func runPlan(idx int, p respPlan, t *respTargets, root string) respRun {
 		limit = 40 * time.Second // (normal: 2 .. 5 s) has an instance that is blocked; repeated once alone like any other
 	}
 	res.RunErr = runEngineWith(eng, limit)
+	close(over)
 	res.WallMs = int(time.Since(t0) / time.Millisecond)
 	res.Fired, res.Answered = int(m.Request.Get()), int(m.Response.Get())
 	res.Seen = int(seen() - seenBefore)
@@ -883,7 +899,10 @@ func responsesMain(args []string) {
 	close(next)
 	wg.Wait()
 	for j := range results {
-		if strings.Contains(results[j].RunErr, "context deadline exceeded") && !results[j].Fatal {
+		// (an availability run in which no connection met the target while it was away - the engine was starved past the
+		// window, seen at load average 180 - observed nothing: it is played again alone too, and judged by the same rules)
+		missed := plans[j].avail != "" && results[j].BuildErr == "" && results[j].RunErr == "" && results[j].Downs < 1
+		if (strings.Contains(results[j].RunErr, "context deadline exceeded") || missed) && !results[j].Fatal {
 			t := newTargets(*h2)
 			results[j] = runPlan(j, plans[j], t, root)
 			results[j].Retried = true
